@@ -238,6 +238,23 @@ def r7(ctx, prog):
     ctx.floor(R, 2)
 
 
+def r8(ctx, prog):
+    R = ctx.rule("C18.R8", "what is freed is what is scheduled: mi_segment_schedule_purge is called only by mi_segment_span_free for exactly the span it frees, and "
+                           "coalescing frees its merged span with purging allowed (a page whose range is never scheduled stays committed until the whole segment goes)")
+    callers = rl.callers_of(prog, "mi_segment_schedule_purge")
+    for c in callers:
+        ctx.check(R, c == "mi_segment_span_free", prog.fn(c).where(), "%s -> mi_segment_schedule_purge (only mi_segment_span_free schedules, with the span's own start and size: C13.R2)" % c,
+                  key="C18.R8:caller:%s" % c)
+    g = prog.fn("mi_segment_span_free_coalesce")
+    sites = list(g.calls("mi_segment_span_free"))
+    if not sites:
+        ctx.broke("C18.R8: mi_segment_span_free_coalesce does not call mi_segment_span_free")
+    for c in sites:
+        k = next((i for i, p_ in enumerate(prog.fn("mi_segment_span_free").d["params"]) if p_["t"] in ("_Bool", "bool")), None)
+        ctx.check(R, k is not None and g.cv(rl.arg(g, c, k)) == 1, g.where(c), "the coalesced span is freed with allow_purge = true", key="C18.R8:coalesce")
+    ctx.floor(R, 2)
+
+
 def run(ctx):
     ctx.explanation = ("Static decision of C18's code-shaped necessary conditions: orientation agreement of the expiry tests of the three purge "
                        "drivers (edge-fact analysis over their CFGs), reachability of force=false purge attempts from ordinary free/alloc/collect "
@@ -246,7 +263,7 @@ def run(ctx):
     for c in (["REL"] if ctx.tier == "quick" else ["REL", "SEC", "DBG"]):
         prog = ctx.prog(c)
         n0 = len(ctx.instances)
-        r1(ctx, prog); r2(ctx, prog); r3(ctx, prog); r4(ctx, prog); r5(ctx, prog); r6(ctx, prog); r7(ctx, prog)
+        r1(ctx, prog); r2(ctx, prog); r3(ctx, prog); r4(ctx, prog); r5(ctx, prog); r6(ctx, prog); r7(ctx, prog); r8(ctx, prog)
         if c != "REL":
             for i in ctx.instances[n0:]:
                 i["site"] += " [%s]" % c
